@@ -188,6 +188,18 @@ impl<'ast> Visit<'ast> for BodyVisitor {
         self.nodes.push(json!({"kind": "try", "range": rng(e.span()), "q": rng(e.question_token.span()), "in_closure": self.closure_depth > 0}));
         visit::visit_expr_try(self, e);
     }
+    fn visit_expr_match(&mut self, e: &'ast syn::ExprMatch) {
+        self.nodes.push(json!({"kind": "match", "range": rng(e.span()), "scrutinee": rng(e.expr.span()),
+            "arms": e.arms.iter().map(|a| json!({
+                "pat": rng(a.pat.span()),
+                "guard": a.guard.as_ref().map(|(_, g)| rng(g.span())),
+                "body": rng(a.body.span()),
+                "body_is_block": matches!(&*a.body, syn::Expr::Block(_)),
+                "wild": matches!(&a.pat, syn::Pat::Wild(_)),
+            })).collect::<Vec<_>>(),
+            "in_closure": self.closure_depth > 0}));
+        visit::visit_expr_match(self, e);
+    }
     fn visit_expr_await(&mut self, e: &'ast syn::ExprAwait) {
         self.nodes.push(json!({"kind": "await", "range": rng(e.span())}));
         visit::visit_expr_await(self, e);
